@@ -37,6 +37,7 @@ pub const SNIPPETS: &[Snippet] = &[
     s("gl:varargs-first", "local function vb#(...)\n  local n# = @A\n  local x#, y# = ...\n  local z# = ...\n  emit(n#, x#, y#, z#)\nend\nvb#(7, 8, 9)\nvb#(7)"),
     s("gl:no-values", "local a#\nlocal b# = get1()\nlocal c#, d#\nlocal e# = @A\nemit(a#, b#, c#, d#, e#)"),
     s("gl:no-values-first", "local a#, b#\nlocal c#, d# = get1(), get2()\nlocal e#\nemit(a#, b#, c#, d#, e#)"),
+    s("gl:no-values-unequal-counts", "local a#, b#\nlocal c# = get1()\nemit(a#, b#, c#)\ndo\n  local p#\n  local q#, r# = @A, @B\n  emit(p#, q#, r#)\nend\ndo\n  local x#\n  local y#\n  local z# = @C\n  emit(x#, y#, z#)\nend\ndo\n  local u#, v#, w#\n  local s#, t# = get2(), @A\n  emit(u#, v#, w#, s#, t#)\nend"),
     s("gl:fewer-values", "local a# = @A\nlocal b#, c# = @B\nlocal d# = @C\nemit(a#, b#, c#, d#)"),
     s("gl:more-values-second", "local a# = @A\nlocal b# = get1(), get2()\nemit(a#, b#)"),
     s("gl:order", "local a# = get1()\nlocal b# = get2()\nlocal c# = get1()\nlocal d# = get2() + get1()\nemit(a#, b#, c#, d#)"),
@@ -82,6 +83,7 @@ pub const SNIPPETS: &[Snippet] = &[
     s("mc:strings", "local s# = 'abc'\nemit(('abc'):upper(), ('x'):rep(3), ('hello'):sub(2, 3), s#:upper(), s#:len(), (s#):byte())"),
     s("mc:shadowed", "local o# = {name = 'outer'}\nfunction o#:who() return self.name end\ndo\n  local o# = {name = 'inner', who = o#.who}\n  emit(o#:who())\nend\nlocal function f#(o#) return o#:who() end\nemit(o#:who(), f#({name = 'param', who = o#.who}))"),
     s("mc:effects", "local o# = {v = @A}\nfunction o#:get(d) return self.v + d end\nlocal function mk#() emit('mk') return o# end\nlocal box# = {o = o#}\nemit(mk#():get(1), box#.o:get(2), box#['o']:get(3), (mk#()):get(4), ((o#)):get(5))"),
+    s("mc:double-paren", "local o# = {v = @A}\nfunction o#:get(d) return self.v + d end\nlocal function mk#() emit('mk') return o# end\nlocal box# = {o#}\nlocal function key#() emit('key') return 1 end\nemit(((mk#())):get(1), ((box#[key#()])):get(2), (((o#))):get(3), ((mk#())):get(get1()))\n((mk#())):get(4)"),
     s("mc:args", "local o# = {}\nfunction o#.s(self, str) return #str end\nfunction o#.t(self, tb) return #tb end\nfunction o#.va(self, ...) return select('#', ...) end\nlocal function w#(...) return o#:va(...) end\nemit(o#:s'abc', o#:t{1, 2, 3}, o#:va(get1(), get2()), w#(1, 2, 3), o#:va((w#())))"),
     s("mc:index-handler", "local proto# = {hello = function(self, x) emit(self ~= nil, x) return x end}\nlocal p# = setmetatable({}, {__index = function(t, k) emit('index', k) return proto#[k] end})\nemit(p#:hello(1))\np#:hello(2)"),
     s("mc:global", "G# = {v = @A}\nfunction G#:m(x) return self.v + x end\nemit(G#:m(1), (G#):m(2))"),
